@@ -119,22 +119,29 @@ def run_cases(cases, env=None, batch=50, timeout_ms=10000, engine="new"):
         if ex and ex.startswith("machinery"):
             raise MachineryError(ex)
         got = set()
+        last_mark = None
         for o in out:
+            if "mark" in o:
+                last_mark = o["mark"]
+                continue
             o["exit"] = "normal"
             res[o["id"]] = o
             got.add(o["id"])
+            last_mark = None
         missing = [c for c in chunk if c["id"] not in got]
         if missing:
             if len(chunk) == 1:
-                res[chunk[0]["id"]] = {"id": chunk[0]["id"], "steps": [], "exit": ex}
+                res[chunk[0]["id"]] = {"id": chunk[0]["id"], "steps": [], "exit": ex, "last_mark": last_mark}
             else:
                 for c in missing:
                     o2, ex2 = h.request({"cases": [c], "timeout_ms": timeout_ms})
+                    marks = [o["mark"] for o in o2 if "mark" in o]
+                    o2 = [o for o in o2 if "mark" not in o]
                     if o2:
                         o2[0]["exit"] = "normal"
                         res[c["id"]] = o2[0]
                     else:
-                        res[c["id"]] = {"id": c["id"], "steps": [], "exit": ex2}
+                        res[c["id"]] = {"id": c["id"], "steps": [], "exit": ex2, "last_mark": marks[-1] if marks else None}
     return res
 
 
